@@ -19,6 +19,11 @@ var fixedOps = []string{
 	"enc 2 map int int map k int ptr iface 1 i int 1 ptr nil", "cls 2 map int int map k int ptr iface 1 i int 1 ptr nil",
 	"enc 3 map int int map k int ptr iface 1 i int 1 ptr nil", "cls 3 map int int map k int ptr iface 1 i int 1 ptr nil",
 	"spec 3 map int int map k int ptr iface 1 i int 1 ptr nil",
+	// regression inputs of the repaired findings KF-C12-5 (date out of range: an error, the last day still written) and
+	// KF-C12-10 (net.IP of a length other than 0 / 4 / 16: an error; nil net.IP: null) - spec-backed
+	"spec 4 date i int64 185542587187200000", "spec 4 date i int64 185542587187199999", "spec 4 date i int64 -185542587187200001",
+	"spec 4 date t 185542587187200 0", "spec 4 inet ip 0102030405", "spec 4 inet ip -", "spec 4 inet ip 01020304",
+	"spec 3 list inet sl ip 1 ip 010203",
 	// D9 unsigned wrap
 	"enc 4 smallint i uint16 65535", "cls 4 smallint i uint16 65535",
 	"enc 4 smallint i uint16 32767", "spec 4 smallint i uint16 32767",
